@@ -38,6 +38,15 @@ ERRSHAPE = {M_ERR: "message", M_ERR2: "message, other class", M_ASSERT: "bare as
 # order in which the shapes are dealt out to the failing cells of a subset: neighbours get different classes
 ERR_CYCLE = (M_ERR, M_ASSERT, M_ERR2, M_NOARGS, M_STRRAISES, M_NONSTR, M_EMPTY)
 NPROCS_QUICK = (1, 2, 3, 5)
+# exception OBJECTS that cannot be sent through a process pool's result pipe (pickle.dumps of the object fails): a class defined
+# inside the function that raises it, arguments holding a lambda / a lock.  Perfectly legal for a user-defined debiaser; they are
+# NOT in ERR_CYCLE and never reach lean/drivers/DrvGrid.lean (the model's error value is abstract; picklability is runtime-only).
+# With failsafe=False under a pool Python itself replaces such an exception by multiprocessing.pool.MaybeEncodingError.
+M_LOCALCLS, M_LAMBDA, M_LOCK = 90, 89, 88
+UNPICKLABLE = (M_LOCALCLS, M_LAMBDA, M_LOCK)
+ERRNAME.update({M_LOCALCLS: "LocalError", M_LAMBDA: "ProbeError", M_LOCK: "ProbeError2"})
+ERRSHAPE.update({M_LOCALCLS: "unpicklable: class defined inside the raising function", M_LAMBDA: "unpicklable: a lambda among the args",
+                 M_LOCK: "unpicklable: a lock among the args"})
 
 
 class ProbeError(Exception):
@@ -77,6 +86,17 @@ def encode(drive, a, b, shift=0):
         raise StrRaises()
     if d0 == M_EMPTY:
         raise ProbeError("")
+    if d0 == M_LOCALCLS:
+        class LocalError(ValueError):
+            pass
+
+        raise LocalError("probe marker 90")
+    if d0 == M_LAMBDA:
+        raise ProbeError("probe marker 89", lambda x: x)
+    if d0 == M_LOCK:
+        import threading
+
+        raise ProbeError2("probe marker 88", threading.Lock())
     if d0 == M_LONG:
         return np.zeros(drive.size + 1, dtype=drive.dtype)
     if d0 == M_ONE:
